@@ -178,6 +178,15 @@ PROBE_PROGRAM = {'encoding': 'utf-8', 'calls': [
 def sweep_chunks(tier, seed):
     names = [k for k in sut.identifier_names() if k not in KNOWN]
     names += [k for k in KEYS if k not in names]
+
+    # the other spelling of every name with a separator in it
+    for k in sorted(KNOWN) + list(names):
+        for v in (k.replace('_', '-'), k.replace('-', '_'),
+                  k.replace('_', ''), k.replace('_', '.')):
+            if v not in names and v not in KNOWN and \
+                    spec.KEY_RE.fullmatch(v.encode('ascii')):
+                names.append(v)
+
     n = 16
     return [names[i::n] for i in range(n)]
 
@@ -195,7 +204,7 @@ def run_sweep_chunk(names, st):
 
     for name in names:
         for j, rec in enumerate(exp):
-            for value in ('1', 'x', '0'):
+            for value in ('1', 'x', '0', 'dos'):
                 for first in (False, True):
                     case = {'key': name, 'header': j, 'value': value,
                             'first': first}
